@@ -22,13 +22,13 @@ def ncf2temperature(ncffile, outpath):
         outfile.write(buf)
         t.tofile(outfile)
         d.tofile(outfile)
-        sfc[di].astype('>f').tofile(outfile)
+        np.ma.filled(sfc[di].astype('>f')).tofile(outfile)
         outfile.write(buf)
         for zi in range(nz):
             outfile.write(buf)
             t.tofile(outfile)
             d.tofile(outfile)
-            air[di, zi].astype('>f').tofile(outfile)
+            np.ma.filled(air[di, zi].astype('>f')).tofile(outfile)
             outfile.write(buf)
 
     outfile.flush()
